@@ -201,7 +201,9 @@ class Notes:
                                       f"{len(inner)} inner loop(s), {len(s.loops)} loops in total")
             return
         L2 = inner[0]
-        # index variable
+        # index variables.  General form (a + b = 1):
+        #   S = 0;  while S < n:  E = S + a;  while E + b < n and key(E + b) == key(E + b - 1 | S):  E += 1;  consume [S, E + b);  S = E + b
+        # a = 0, b = 1 with E and S the same variable is the shipped form; a = 1, b = 0 is the exclusive-end form.
         t1 = icmp(L1.test) if L1.test is not None else None
         ivar = None
         if t1 is not None and t1[1] is not None and t1[1][0] == "lv" and t1[1][1] == L1.id:
@@ -210,39 +212,49 @@ class Notes:
             fail(r, ctx, bf, L1.node, f"outer loop test must be i < len(datas); found {show(L1.test) if L1.test else None}")
             return
         i1 = ("lv", L1.id, ivar)
-        i2 = ("lv", L2.id, ivar)
-        j = ("la", L2.id, ivar)
+        inner_vars = [n for n in L2.carried]
+        if len(inner_vars) != 1:
+            fail(r, ctx, bf, L2.node, f"inner scan must advance exactly one index variable; it changes {inner_vars}")
+            return
+        evar = inner_vars[0]
+        i2 = ("lv", L2.id, evar)
+        j = ("la", L2.id, evar)
         init, upd = L1.carried.get(ivar, (None, None))
         if init != ("const", 0):
             fail(r, ctx, bf, L1.node, f"grouping index must start at 0; starts at {show(init) if init else None}")
-        b, c = affine(upd) if upd is not None else (None, None)
-        if upd is None or strip(b) != j or c != 1:
-            fail(r, ctx, bf, L1.node, f"next group must start right after the last datum of this one (i = j + 1); found "
-                                      f"{show(upd) if upd else None}: any other offset repeats or skips a note line")
-        i_init, i_upd = L2.carried.get(ivar, (None, None))
-        if strip(i_init) != i1:
-            fail(r, ctx, bf, L2.node, f"inner scan must start at the group's first index; starts at {show(i_init) if i_init else None}")
+        i_init, i_upd = L2.carried.get(evar, (None, None))
+        ab, a_off = affine(i_init) if i_init is not None else (None, None)
+        if i_init is None or strip(ab) != i1 or a_off not in (0, 1):
+            fail(r, ctx, bf, L2.node, f"inner scan must start at the group's first index (or one past it); starts at {show(i_init) if i_init else None}")
+            return
+        b_off = 1 - a_off
         b, c = affine(i_upd) if i_upd is not None else (None, None)
         if i_upd is None or strip(b) != i2 or c != 1:
             fail(r, ctx, bf, L2.node, f"inner scan must advance by one datum; found {show(i_upd) if i_upd else None}")
-        extra = [n for n, (a, u) in L2.carried.items() if n != ivar]
-        if extra:
-            fail(r, ctx, bf, L2.node, f"inner scan changes other variables: {extra}")
+        b, c = affine(upd) if upd is not None else (None, None)
+        if upd is None or strip(b) != j or c != b_off:
+            fail(r, ctx, bf, L1.node, f"next group must start right after the last datum of this one (start = end index {'+ 1' if b_off else ''}); found "
+                                      f"{show(upd) if upd else None}: any other offset repeats or skips a note line")
         # inner test
         tt = L2.test
         ok = tt is not None and tt[0] == "and" and len(tt[1]) == 2
         if ok:
             bound, eq = tt[1]
             tb = icmp(bound)
-            if not (tb is not None and strip(tb[1]) == i2 and match(LEN, tb[2]) is not None and tb[3] == -2):
-                fail(r, ctx, bf, L2.node, f"inner bound must be i + 1 < len(datas), evaluated first; found {show(bound)}")
-            nxt = ("attr", ("sub", datas, ("binop", "+", i2, ("const", 1))), "tick")
-            cur = ("?or", ("attr", ("sub", datas, i2), "tick"), ("attr", ("sub", datas, i1), "tick"))
+            if not (tb is not None and strip(tb[1]) == i2 and match(LEN, tb[2]) is not None and tb[3] == -1 - b_off):
+                fail(r, ctx, bf, L2.node, f"inner bound must be {'i + 1' if b_off else 'end'} < len(datas), evaluated first; found {show(bound)}")
+
+            def at(base, off):
+                if off == 0:
+                    return ("sub", datas, base)
+                return ("?or", ("sub", datas, ("binop", "+", base, ("const", off))), ("sub", datas, ("binop", "-", base, ("const", -off)))) if off > 0 else \
+                    ("sub", datas, ("binop", "-", base, ("const", -off)))
+            nxt = ("attr", at(i2, b_off), "tick")
+            cur = ("?or", ("attr", at(i2, b_off - 1), "tick"), ("attr", ("sub", datas, i1), "tick"))
             if match(("?sym", "==", nxt, cur), eq) is None:
-                fail(r, ctx, bf, L2.node, f"inner test must compare the next datum's tick with the current group's tick "
-                                          f"(datas[i+1].tick == datas[i].tick); found {show(eq)}")
+                fail(r, ctx, bf, L2.node, f"inner test must compare the next datum's tick with the current group's tick; found {show(eq)}")
         else:
-            fail(r, ctx, bf, L2.node, f"inner test must be `i + 1 < len(datas) and datas[i+1].tick == datas[i].tick`; found "
+            fail(r, ctx, bf, L2.node, f"inner test must be `next < len(datas) and datas[next].tick == datas[next - 1].tick`; found "
                                       f"{show(tt) if tt else None}")
         # consumer
         calls = [c for c in s.calls if c.fn == ("func", self.f.qual)]
@@ -265,8 +277,8 @@ class Notes:
             bh, ch = affine(hi)
             if not (strip(bl) == i1 and cl == 0):
                 fail(r, ctx, bf, call.node, f"group slice must start at the group's first index; starts at {show(lo)}")
-            if not (strip(bh) == j and ch == 1):
-                fail(r, ctx, bf, call.node, f"group slice must end right after the last equal-tick datum (j + 1); ends at "
+            if not (strip(bh) == j and ch == b_off):
+                fail(r, ctx, bf, call.node, f"group slice must end right after the last equal-tick datum; ends at "
                                             f"{show(hi)}: a chord's last line would be dropped or the next tick merged in")
             if st != ("const", None):
                 fail(r, ctx, bf, call.node, f"group slice has a step {show(st)}")
@@ -486,8 +498,12 @@ class Notes:
         if strip(st.key) != ("attr", ("attr", elem, "note_track_index"), "value") or st.value != ("const", 1):
             fail(r, ctx, f, st.node, f"lane store must be lanes[d.note_track_index.value] = 1 for the loop's own datum; found "
                                      f"lanes[{show(st.key)}] = {show(st.value)}")
-        for e in [x for x in s.exits if x.kind in ("break", "continue") or (x.kind in ("ret", "raise") and x.loops)]:
+        for e in [x for x in s.exits if x.kind == "break" or (x.kind in ("ret", "raise") and x.loops)]:
             fail(r, ctx, f, e.node, f"lane loop can leave early ({e.kind}): later lines of the same tick would be ignored")
+        for e in [x for x in s.exits if x.kind == "continue"]:
+            # `continue` is admissible only as the flag-line handler (the last thing the iteration would do anyway)
+            if not any(a[0] == "raises" and p for a, p in e.cond):
+                fail(r, ctx, f, e.node, "lane loop skips the rest of an iteration outside the IndexError handler")
         extra = [(a, p) for a, p in st.cond if a[0] not in ("inloop", "raises")]
         guarded_by_pred = False
         for a, p in extra:
@@ -522,7 +538,7 @@ class Notes:
                     fail(r, ctx, f, ti.node, "the try body around the lane store contains other statements whose IndexError "
                                              "would be swallowed too")
                 for h in ti.node.handlers:
-                    if not all(isinstance(x, ast.Pass) for x in h.body):
+                    if not all(isinstance(x, (ast.Pass, ast.Continue)) for x in h.body):
                         fail(r, ctx, f, ti.node, "the IndexError handler does more than skip the flag line")
 
     # ------------------------------------------------------------------ sustains
@@ -608,7 +624,7 @@ class Notes:
                     if strip(st.key) != ("attr", ("attr", elem, "note_track_index"), "value") or strip(st.value) != ("attr", elem, "sustain"):
                         fail(r_store, ctx, f, st.node, "slot store must be slots[d.note_track_index.value] = d.sustain for one and the same "
                                                        f"datum d; found slots[{show(st.key)}] = {show(st.value)}")
-                    for x in [x for x in s.exits if (x.kind in ("break", "continue") or x.kind in ("ret", "raise")) and x.loops and x.loops[-1] == loop.id]:
+                    for x in [x for x in s.exits if x.kind in ("break", "ret", "raise") and x.loops and x.loops[-1] == loop.id]:
                         fail(r_store, ctx, f, x.node, f"slot loop can leave early ({x.kind})")
                     r_sel.inst(f"{f.name}: lane selection")
                     pred_q = None
